@@ -58,7 +58,7 @@ def run(ctx):
             else:
                 ctx.finding("C12.D2", fn, "real-digest", "a disclosure's digest is listed in `_sd` but the disclosure itself is not recorded in all_disclosures on every path", line=line)
             continue
-        dfn = I.decoy_fn_of(v)
+        dfn = I.decoy_of(fn, v, b)
         if dfn is not None:
             decoy_pushes.append((b, n, dfn))
             true_edges = [(bb, tt) for (bb, tt, ft) in I.flag_edges]
@@ -131,10 +131,10 @@ def run(ctx):
         else:
             ctx.ok("C12.D3", fn, "sorted", "every path from this push to the `_sd` insert passes a sort/shuffle of the vector", line=line)
     # ---- D4
-    for dfn in set(d for (_, _, d) in decoy_pushes):
-        rv = vals(dfn).return_value()
+    for dec in [d for (_, _, d) in decoy_pushes]:
+        rv, dfn = dec.rv, dec.host
         hs = [x for x in walk(rv) if x.kind == "call" and (x.d["term"].get("resolved") or "") == "utils::base64_hash"]
-        okd = bool(hs) and must(rv, lambda x: x in hs) and all(must(h.kids[0], lambda y: y.kind == "call" and (y.d["term"].get("resolved") or "") == "utils::generate_salt" and y.fn is dfn) for h in hs)
+        okd = bool(hs) and must(rv, lambda x: x in hs) and all(must(h.kids[0], lambda y: y.kind == "call" and (y.d["term"].get("resolved") or "") == "utils::generate_salt" and dec.fresh(y)) for h in hs)
         if okd:
             ctx.ok("C12.D4", dfn, "decoy-form", "decoy = base64_hash(generate_salt()): same digest function as real disclosures, fresh random input")
         else:
